@@ -137,79 +137,53 @@ Proof.
     destruct (ask w (RNode (16 + q_siz (getq w s)))) as [w1 ok].
     destruct A as (Hh & Hv & Hf & Ha & Hb & Ht & Hs).
     destruct ok.
-    + eexists _, _. split; [reflexivity|]. right.
-      set (n := w_fresh w1).
-      assert (Hn3 : 3 <= n).
-      { unfold n. rewrite Hf. pose proof (qi_fresh _ _ I). lia. }
+    + match goal with |- context [Ok (?W, _)] => set (w2 := W) end.
+      set (n := w_fresh w1) in *.
+      assert (Hn3 : 3 <= n) by (rewrite Hf; pose proof (qi_fresh _ _ I); lia).
       assert (Hnz : n <> 0) by lia.
-      assert (Hq : forall t, q_pool (getq (setq (mkW (dset (w_h w1) n (mkD 0 0)) (vset (w_val w1) n 0%Z) (n + 1)
-                     (w_qa w1) (w_qb w1) (w_sched w1) (w_trace w1)) s
-                     (mkQ [] (q_siz (getq w s)) (q_num (getq w s) + 1) (q_mem (getq w s)))) t)
-                   = q_pool (getq w t)).
-      { intros t. destruct s, t; simpl; unfold getq in *; rewrite ?Ha, ?Hb; auto. }
-      assert (Hall : forall Y, allnodes (setq (mkW (dset (w_h w1) n (mkD 0 0)) (vset (w_val w1) n 0%Z) (n + 1)
-                     (w_qa w1) (w_qb w1) (w_sched w1) (w_trace w1)) s
-                     (mkQ [] (q_siz (getq w s)) (q_num (getq w s) + 1) (q_mem (getq w s)))) Y = allnodes w Y).
-      { intros Y. unfold allnodes, pools. f_equal. f_equal.
-        destruct s; simpl; unfold getq in *; rewrite ?Ha, ?Hb; simpl in *; rewrite ?Hp; auto. }
+      assert (H2h : w_h w2 = dset (w_h w) n (mkD 0 0)) by (unfold w2; destruct s; simpl; rewrite Hh; reflexivity).
+      assert (H2v : w_val w2 = vset (w_val w) n 0%Z) by (unfold w2; destruct s; simpl; rewrite Hv; reflexivity).
+      assert (H2f : w_fresh w2 = n + 1) by (unfold w2; destruct s; reflexivity).
+      assert (H2t : w_trace w2 = w_trace w1) by (unfold w2; destruct s; reflexivity).
+      assert (H2s : w_sched w2 = w_sched w1) by (unfold w2; destruct s; reflexivity).
+      assert (H2q : getq w2 s = mkQ [] (q_siz (getq w s)) (q_num (getq w s) + 1) (q_mem (getq w s)))
+        by (unfold w2; apply getq_setq_same).
+      assert (H2o : getq w2 (negb s) = getq w (negb s)).
+      { unfold w2. rewrite getq_setq_other. destruct s; simpl; unfold getq; simpl; congruence. }
+      assert (H2p : pools w2 = pools w).
+      { unfold w2. rewrite pools_setq. unfold pools. destruct s; simpl in *; unfold getq in Hp; simpl in Hp;
+          rewrite ?Ha, ?Hb, ?Hp; reflexivity. }
+      clearbody w2.
+      assert (Hall : allnodes w2 X = allnodes w X) by (unfold allnodes; rewrite H2p; reflexivity).
       assert (Hnew : forall x, In x (allnodes w X) -> x <> n).
-      { intros x Hx. pose proof (qi_node _ _ I x Hx) as (B & _). unfold n. rewrite Hf. lia. }
+      { intros x Hx. pose proof (qi_node _ _ I x Hx) as (B & _). rewrite Hf. lia. }
+      exists w2, n. split; [reflexivity|]. right.
       split; [exact Hnz|]. split; [|split; [|split]].
-      * constructor; rewrite ?Hall.
-        -- intros t. destruct s; simpl; rewrite Hh.
-           ++ eapply Ring_Frame; [apply (qi_ring _ _ I t)| |].
-              ** intros x Hx. apply dget_dset_other. intros E. apply Hx. left. exact E.
-              ** intros x Hx [E|[]]. subst x. destruct Hx as [E|Hx].
-                 --- destruct t; simpl in E; lia.
-                 --- apply (Hnew n); auto. eapply allnodes_sel; eauto.
-           ++ eapply Ring_Frame; [apply (qi_ring _ _ I t)| |].
-              ** intros x Hx. apply dget_dset_other. intros E. apply Hx. left. exact E.
-              ** intros x Hx [E|[]]. subst x. destruct Hx as [E|Hx].
-                 --- destruct t; simpl in E; lia.
-                 --- apply (Hnew n); auto. eapply allnodes_sel; eauto.
+      * constructor; rewrite ?Hall, ?H2h, ?H2v, ?H2f.
+        -- intros t. eapply (Ring_Frame _ _ [n]); [apply (qi_ring _ _ I t)| |].
+           ++ intros x Hx. apply dget_dset_other. intros E. apply Hx. left. exact E.
+           ++ intros x Hx [E|[]]. subst x. destruct Hx as [E|Hx].
+              ** destruct t; simpl in E; lia.
+              ** apply (Hnew n); auto. eapply allnodes_sel; eauto.
         -- constructor; [|apply (qi_nodup _ _ I)]. intros H. apply (Hnew n H). reflexivity.
-        -- intros x Hx.
-           assert (Hfr : w_fresh (setq (mkW (dset (w_h w1) n (mkD 0 0)) (vset (w_val w1) n 0%Z) (n + 1)
-                     (w_qa w1) (w_qb w1) (w_sched w1) (w_trace w1)) s
-                     (mkQ [] (q_siz (getq w s)) (q_num (getq w s) + 1) (q_mem (getq w s)))) = n + 1)
-             by (destruct s; reflexivity).
-           assert (Hhp : w_h (setq (mkW (dset (w_h w1) n (mkD 0 0)) (vset (w_val w1) n 0%Z) (n + 1)
-                     (w_qa w1) (w_qb w1) (w_sched w1) (w_trace w1)) s
-                     (mkQ [] (q_siz (getq w s)) (q_num (getq w s) + 1) (q_mem (getq w s)))) = dset (w_h w1) n (mkD 0 0))
-             by (destruct s; reflexivity).
-           assert (Hvl : w_val (setq (mkW (dset (w_h w1) n (mkD 0 0)) (vset (w_val w1) n 0%Z) (n + 1)
-                     (w_qa w1) (w_qb w1) (w_sched w1) (w_trace w1)) s
-                     (mkQ [] (q_siz (getq w s)) (q_num (getq w s) + 1) (q_mem (getq w s)))) = vset (w_val w1) n 0%Z)
-             by (destruct s; reflexivity).
-           rewrite Hfr, Hhp, Hvl. destruct Hx as [<-|Hx].
+        -- intros x [<-|Hx].
            ++ split; [lia|]. split.
               ** exists (mkD 0 0). apply dget_dset_same. exact Hnz.
               ** rewrite vget_vset_same by exact Hnz. discriminate.
            ++ pose proof (qi_node _ _ I x Hx) as (B & L & V). pose proof (Hnew x Hx) as Hne.
-              split; [unfold n in *; rewrite Hf in *; lia|]. split.
-              ** destruct L as [d Hd]. exists d. rewrite dget_dset_other by congruence. rewrite Hh. exact Hd.
-              ** rewrite vget_vset_other by congruence. rewrite Hv. exact V.
-        -- rewrite getq_setq_same. simpl. rewrite (qi_num _ _ I s). reflexivity.
-        -- rewrite getq_setq_other. rewrite <- (qi_num _ _ I (negb s)).
-           destruct s; simpl; unfold getq; simpl; congruence.
+              split; [lia|]. split.
+              ** destruct L as [d Hd]. exists d. rewrite dget_dset_other by congruence. exact Hd.
+              ** rewrite vget_vset_other by congruence. exact V.
+        -- rewrite H2q. simpl. rewrite (qi_num _ _ I s). reflexivity.
+        -- rewrite H2o. apply (qi_num _ _ I).
         -- intros t. destruct (bool_cases s t) as [->| ->].
-           ++ rewrite getq_setq_same. simpl. lia.
-           ++ rewrite getq_setq_other. pose proof (qi_mem _ _ I (negb s)) as M.
-              destruct s; simpl in *; unfold getq in *; simpl in *; rewrite ?Ha, ?Hb; exact M.
-        -- assert (Hfr : w_fresh (setq (mkW (dset (w_h w1) n (mkD 0 0)) (vset (w_val w1) n 0%Z) (n + 1)
-                     (w_qa w1) (w_qb w1) (w_sched w1) (w_trace w1)) s
-                     (mkQ [] (q_siz (getq w s)) (q_num (getq w s) + 1) (q_mem (getq w s)))) = n + 1)
-             by (destruct s; reflexivity).
-           rewrite Hfr. pose proof (qi_fresh _ _ I). unfold n. rewrite Hf. simpl length. lia.
-      * intros x Hx. unfold val.
-        assert (Hvl : w_val (setq (mkW (dset (w_h w1) n (mkD 0 0)) (vset (w_val w1) n 0%Z) (n + 1)
-                     (w_qa w1) (w_qb w1) (w_sched w1) (w_trace w1)) s
-                     (mkQ [] (q_siz (getq w s)) (q_num (getq w s) + 1) (q_mem (getq w s)))) = vset (w_val w1) n 0%Z)
-             by (destruct s; reflexivity).
-        rewrite Hvl, vget_vset_other by congruence. rewrite Hv. reflexivity.
-      * unfold failed. destruct s; simpl; rewrite Ht; reflexivity.
-      * unfold no_fault. intros Hs0. destruct (Hs Hs0) as [_ Hs1]. destruct s; simpl; exact Hs1.
-    + eexists _, _. split; [reflexivity|]. left. split; [reflexivity|]. split; [|split].
+           ++ rewrite H2q. simpl. lia.
+           ++ rewrite H2o. apply (qi_mem _ _ I).
+        -- pose proof (qi_fresh _ _ I). rewrite Hf. simpl length. lia.
+      * intros x Hx. unfold val. rewrite H2v, vget_vset_other by congruence. reflexivity.
+      * unfold failed. rewrite H2t, Ht. reflexivity.
+      * unfold no_fault. intros Hs0. rewrite H2s. apply (Hs Hs0).
+    + exists w1, 0. split; [reflexivity|]. left. split; [reflexivity|]. split; [|split].
       * unfold same_core. auto.
       * unfold failed. rewrite Ht. reflexivity.
       * intros Hs0. destruct (Hs Hs0). discriminate.
@@ -242,4 +216,159 @@ Proof.
     + intros x _. unfold val. rewrite Hv. reflexivity.
     + unfold failed, w1. destruct s; reflexivity.
     + unfold no_fault, w1. destruct s; simpl; auto.
+Qed.
+
+(* ------------------------------------------------------------------ shared bookkeeping *)
+Lemma rings_disj_gen (all : list id) (X : list id * list id) s x :
+  (forall y, In y (fst X ++ snd X) -> 3 <= y) -> NoDup (fst X ++ snd X) ->
+  In x (qaddr s :: sel s X) -> ~ In x (qaddr (negb s) :: sel (negb s) X).
+Proof.
+  intros B N [<-|H] [E|H'].
+  - destruct s; discriminate.
+  - assert (3 <= qaddr s) by (apply B; destruct s; simpl in *; apply in_or_app; auto). destruct s; simpl in *; lia.
+  - subst. assert (3 <= qaddr (negb s)) by (apply B; destruct s; simpl in *; apply in_or_app; auto).
+    destruct s; simpl in *; lia.
+  - destruct s; simpl in *; eapply NoDup_app_disj; eauto.
+Qed.
+
+Lemma sel_abs w X s : sel s (abs w X) = pairs w (sel s X).
+Proof. destruct s; reflexivity. Qed.
+Lemma abs_upd w X s l : abs w (upd s l X) = upd s (pairs w l) (abs w X).
+Proof. destruct s; reflexivity. Qed.
+
+Lemma allnodes_upd_perm w X s l l' :
+  Permutation l' l -> Permutation (allnodes w (upd s l' X)) (allnodes w (upd s l X)).
+Proof.
+  intros P. unfold allnodes. destruct s; simpl.
+  - apply Permutation_app_head. apply Permutation_app_tail. exact P.
+  - apply Permutation_app_tail. exact P.
+Qed.
+
+Lemma allnodes_upd_cons w X s n :
+  Permutation (allnodes w (upd s (n :: sel s X) X)) (n :: allnodes w X).
+Proof. unfold allnodes. destruct s, X as [xa xb]; simpl; perm_app. Qed.
+
+Lemma in_allnodes_split w X x : In x (allnodes w X) <-> In x (fst X ++ snd X) \/ In x (pools w).
+Proof. unfold allnodes. rewrite app_assoc, in_app_iff. reflexivity. Qed.
+
+(* ------------------------------------------------------------------ a new node is linked in *)
+Lemma insert_master w X s w1 n h' l1 l2 v :
+  QMidNew w1 X s n -> (forall x, x <> n -> val w1 x = val w x) ->
+  sel s X = l1 ++ l2 -> Ring h' (qaddr s :: l1 ++ n :: l2) ->
+  Frame (w_h w1) h' (n :: qaddr s :: sel s X) -> (forall x, live h' x <-> live (w_h w1) x) ->
+  QInv (setv (seth w1 h') n v) (upd s (l1 ++ n :: l2) X) /\
+  abs (setv (seth w1 h') n v) (upd s (l1 ++ n :: l2) X) = upd s (pairs w l1 ++ (n, v) :: pairs w l2) (abs w X) /\
+  ~ In n (addrs (abs w X)).
+Proof.
+  intros M Hval Hsel R F Lv.
+  set (w' := setv (seth w1 h') n v).
+  assert (Hh : w_h w' = h') by reflexivity.
+  assert (Hv : w_val w' = vset (w_val w1) n v) by reflexivity.
+  assert (Hf : w_fresh w' = w_fresh w1) by reflexivity.
+  assert (Hq : forall t, getq w' t = getq w1 t) by (intros []; reflexivity).
+  assert (Hp : pools w' = pools w1) by reflexivity.
+  pose proof (mn_nodup _ _ _ _ M) as ND. destruct (proj1 (NoDup_cons_iff _ _) ND) as [Hnotin ND'].
+  assert (Hn : 3 <= n < w_fresh w1 /\ live (w_h w1) n /\ vget (w_val w1) n <> None)
+    by (apply (mn_node _ _ _ _ M); left; reflexivity).
+  assert (Hnz : n <> 0) by lia.
+  assert (HnX : ~ In n (fst X ++ snd X)).
+  { intros H. apply Hnotin. apply in_allnodes_split. auto. }
+  assert (Hperm : Permutation (allnodes w' (upd s (l1 ++ n :: l2) X)) (n :: allnodes w1 X)).
+  { eapply perm_trans; [|apply (allnodes_upd_cons w1 X s n)].
+    unfold allnodes. rewrite Hp. change (pools w1) with (pools w1).
+    apply (allnodes_upd_perm w1 X s (n :: sel s X) (l1 ++ n :: l2)).
+    rewrite Hsel. symmetry. apply Permutation_middle. }
+  split; [|split].
+  - constructor; rewrite ?Hh, ?Hv, ?Hf.
+    + intros t. destruct (bool_cases s t) as [->| ->].
+      * rewrite sel_upd_same. exact R.
+      * rewrite sel_upd_other. eapply Ring_Frame; [apply (mn_ring _ _ _ _ M)|exact F|].
+        intros x Hx [E|Hin].
+        -- subst x. destruct Hx as [E|Hx]; [destruct s; simpl in E; lia|].
+           apply HnX. destruct s; simpl in *; apply in_or_app; auto.
+        -- revert Hin. change (~ In x (qaddr s :: sel s X)).
+           replace s with (negb (negb s)) by apply negb_involutive.
+           apply (rings_disj_gen (allnodes w1 X)); auto.
+           ++ intros y Hy. apply (mn_node _ _ _ _ M). right. apply in_allnodes_split. auto.
+           ++ unfold allnodes in ND'. rewrite app_assoc in ND'. eapply NoDup_app_l; eauto.
+    + eapply Permutation_NoDup; [symmetry; exact Hperm|exact ND].
+    + intros x Hx. eapply Permutation_in in Hx; [|exact Hperm].
+      pose proof (mn_node _ _ _ _ M x Hx) as (B & L & V). split; [exact B|]. split; [apply Lv; exact L|].
+      destruct (N.eq_dec x n) as [->|Hne].
+      * rewrite vget_vset_same by exact Hnz. discriminate.
+      * rewrite vget_vset_other by congruence. exact V.
+    + intros t. rewrite Hq. destruct (bool_cases s t) as [->| ->].
+      * rewrite sel_upd_same, (mn_num_s _ _ _ _ M), Hsel, !app_length. simpl. lia.
+      * rewrite sel_upd_other. apply (mn_num_o _ _ _ _ M).
+    + intros t. rewrite Hq. apply (mn_mem _ _ _ _ M).
+    + rewrite (Permutation_length Hperm). apply (mn_fresh _ _ _ _ M).
+  - rewrite abs_upd. 
+    assert (Hvn : val w' n = v) by (unfold val; rewrite Hv, vget_vset_same by exact Hnz; reflexivity).
+    assert (Hvo : forall x, x <> n -> val w' x = val w x).
+    { intros x Hx. rewrite <- Hval by exact Hx. unfold val. rewrite Hv, vget_vset_other by congruence. reflexivity. }
+    assert (Hl : ~ In n (l1 ++ l2)).
+    { rewrite <- Hsel. intros H. apply HnX. destruct s; simpl in *; apply in_or_app; auto. }
+    assert (Habs : abs w' X = abs w X).
+    { unfold abs. f_equal; apply pairs_ext; intros x Hx; apply Hvo; intros ->; apply HnX; apply in_or_app; auto. }
+    rewrite pairs_app. simpl. rewrite Hvn.
+    rewrite (pairs_ext w w' l1), (pairs_ext w w' l2).
+    + unfold abs at 1. unfold abs in Habs. destruct s; simpl; inversion Habs as [[Ha Hb]]; rewrite ?Ha, ?Hb; reflexivity.
+    + intros x Hx. apply Hvo. intros ->. apply Hl. apply in_or_app. auto.
+    + intros x Hx. apply Hvo. intros ->. apply Hl. apply in_or_app. auto.
+  - rewrite addrs_abs. exact HnX.
+Qed.
+
+Definition trace_ok (w w' : qworld) : Prop := no_fault w -> no_fault w' /\ failed w' = failed w.
+
+Lemma trace_ok_refl w : trace_ok w w.
+Proof. intros H. auto. Qed.
+
+Lemma trace_ok_trans w w1 w2 : trace_ok w w1 -> trace_ok w1 w2 -> trace_ok w w2.
+Proof. intros A B H. destruct (A H) as [H1 E1]. destruct (B H1) as [H2 E2]. split; congruence. Qed.
+
+Lemma QMidNew_notin w1 X s n : QMidNew w1 X s n -> ~ In n (qaddr s :: sel s X).
+Proof.
+  intros M [E|H].
+  - assert (3 <= n) by (apply (mn_node _ _ _ _ M); left; reflexivity). destruct s; simpl in E; lia.
+  - pose proof (mn_nodup _ _ _ _ M) as ND. apply NoDup_cons_iff in ND. apply (proj1 ND).
+    eapply allnodes_sel; eauto.
+Qed.
+
+(* ------------------------------------------------------------------ push_fore / push_back *)
+Lemma push_ok fore w X s v :
+  QInv w X ->
+  exists w' n, q_push fore w s v = Ok (w', n) /\ trace_ok w w' /\
+    ((n = 0 /\ QInv w' X /\ abs w' X = abs w X /\ failed w' = true) \/
+     (n <> 0 /\ ~ In n (addrs (abs w X)) /\
+      let X' := upd s (if fore then n :: sel s X else sel s X ++ [n]) X in
+      QInv w' X' /\
+      abs w' X' = upd s (if fore then (n, v) :: sel s (abs w X) else sel s (abs w X) ++ [(n, v)]) (abs w X))).
+Proof.
+  intros I. unfold q_push.
+  destruct (new_spec w X s I) as (w1 & n & E & [(Hn & Hc & Hf & Hs)|(Hn & M & Hval & Hf & Hs)]); rewrite E.
+  - subst n. cbn [N.eqb]. exists w1, 0. split; [reflexivity|]. split; [intros H; contradiction|].
+    left. split; [reflexivity|]. split; [eapply same_core_QInv; eauto|]. split; [apply same_core_abs; auto|auto].
+  - replace (N.eqb n 0) with false by (symmetry; apply N.eqb_neq; exact Hn).
+    pose proof (QMidNew_notin _ _ _ _ M) as Hnot.
+    assert (Ln : live (w_h w1) n) by (apply (mn_node _ _ _ _ M); left; reflexivity).
+    destruct fore.
+    + destruct (add_next_spec (w_h w1) (qaddr s) (sel s X) n (mn_ring _ _ _ _ M s) Ln Hnot)
+        as (h' & Eh & R' & F & Lv).
+      rewrite Eh. cbn [lift]. eexists _, n. split; [reflexivity|].
+      destruct (insert_master w X s w1 n h' [] (sel s X) v M Hval eq_refl R') as (I' & A' & Nn); auto.
+      { eapply Frame_incl; eauto. intros x [<-|[<-|[<-|[]]]]; simpl; auto.
+        destruct (sel s X); simpl; auto. }
+      split; [|right; split; [exact Hn|split; [exact Nn|split; [exact I'|]]]].
+      * intros H. split; [apply Hs; exact H|exact Hf].
+      * cbn [app] in A'. unfold pairs at 1 2 in A'. cbn [map app] in A'. rewrite sel_abs. exact A'.
+    + destruct (add_prev_spec (w_h w1) (qaddr s) (sel s X) n (mn_ring _ _ _ _ M s) Ln Hnot)
+        as (h' & Eh & R' & F & Lv).
+      rewrite Eh. cbn [lift]. eexists _, n. split; [reflexivity|].
+      destruct (insert_master w X s w1 n h' (sel s X) [] v M Hval (eq_sym (app_nil_r _)) R') as (I' & A' & Nn); auto.
+      { eapply Frame_incl; eauto. intros x [<-|[<-|[<-|[]]]]; simpl; auto.
+        destruct (snoc_cases (sel s X)) as [->|(m & z & ->)]; simpl; auto.
+        rewrite last_last. right. right. apply in_or_app. right. left. reflexivity. }
+      split; [|right; split; [exact Hn|split; [exact Nn|split; [exact I'|]]]].
+      * intros H. split; [apply Hs; exact H|exact Hf].
+      * cbn [app] in A'. unfold pairs at 1 2 in A'. cbn [map app] in A'. rewrite sel_abs. exact A'.
 Qed.
